@@ -130,6 +130,92 @@ def check_compress(case, rec):
     rec.nontrivial = bool(truncated)
 
 
+WEIGHTS = {2: [[0.5, 0.5], [0.8, 0.2]], 3: [[0.5, 0.25, 0.25], [0.4, 0.4, 0.2], [0.25, 0.5, 0.25]],
+           4: [[0.64, 0.12, 0.12, 0.12], [0.25, 0.25, 0.25, 0.25], [0.12, 0.64, 0.12, 0.12], [0.4, 0.4, 0.1, 0.1]]}
+
+
+def degenerate_mps(case):
+    """
+    Product of entangled pairs sum_s sqrt(w_s) |s, pi(s)> with *exactly* repeated weights (tensors have one non-zero
+    entry per row, so the Schmidt values are the square roots of the weights up to the rounding of one sqrt), optionally
+    with U(1) charges; bonds inside a pair have dimension d, bonds between pairs dimension 1.
+    """
+    d = case['d']; npairs = case['npairs']
+    w = np.sqrt(np.array(WEIGHTS[d][case['wsel'] % len(WEIGHTS[d])]))
+    rng = np.random.default_rng(case['seed'])
+    charged = case['charged']
+    qd = list(range(d)) if charged else [0] * d
+    A = []; qD = [[0]]
+    tot = 0
+    for _ in range(npairs):
+        perm = rng.permutation(d)
+        ph = np.exp(2j * np.pi * rng.random(d)) if case['complex'] else np.ones(d)
+        a0 = np.zeros((d, 1, d), dtype=complex if case['complex'] else float)
+        a1 = np.zeros((d, d, 1), dtype=complex if case['complex'] else float)
+        for s_ in range(d):
+            a0[s_, 0, s_] = w[s_] if case['weight_left'] else 1.0
+            a1[perm[s_], s_, 0] = (1.0 if case['weight_left'] else w[s_]) * ph[s_]
+        # charges: bond inside the pair carries tot + qd[s]; the pair's total charge must not depend on s
+        if charged:
+            perm = np.array([d - 1 - s_ for s_ in range(d)])
+            a1[...] = 0
+            for s_ in range(d):
+                a1[perm[s_], s_, 0] = (1.0 if case['weight_left'] else w[s_]) * ph[s_]
+            qD.append([tot + s_ for s_ in range(d)])
+            tot += d - 1
+            qD.append([tot])
+        else:
+            qD.append([0] * d); qD.append([0])
+        A += [a0, a1]
+    psi = ptn.MPS(qd, qD, fill='postpone')
+    psi.A = A
+    return psi
+
+
+def check_degenerate(case, rec):
+    psi = degenerate_mps(case)
+    d = case['d']; L = len(psi.A)
+    wts = np.sort(np.array(WEIGHTS[d][case['wsel'] % len(WEIGHTS[d])]))
+    cum = np.cumsum(wts)
+    # tolerance strictly inside a degenerate multiplet (between two cumulative weights of tied values), or generic
+    cands = [0.5 * (cum[i] + cum[i + 1]) for i in range(len(cum) - 1) if wts[i + 1] == wts[i] or (i > 0 and wts[i] == wts[i - 1])]
+    cands = [t for t in cands if t < 0.999 / L] or [0.5 * cum[0]]
+    tol = cands[case['tsel'] % len(cands)]
+    sub = dict(case)
+    v0 = np.asarray(mps_to_vec([np.asarray(a, dtype=complex) for a in psi.A]))
+    n0 = np.linalg.norm(v0)
+    D_old = psi.bond_dims
+    mode = case['mode']
+    nrm, scale = psi.compress(tol, mode=mode)
+    nrm = float(np.real(nrm)); scale = float(np.real(scale))
+    require(abs(nrm - n0) <= 1e-11 * n0, 'returned norm differs from the norm of the original state', nrm=nrm, norm=n0)
+    require(scale <= 1 + 1e-12 and scale >= np.sqrt(max(0.0, 1 - L * tol)) - 1e-12, 'scale factor outside [sqrt(1 - L tol), 1]',
+            scale=scale, bound=float(np.sqrt(max(0.0, 1 - L * tol))), tol=tol, weights=wts.tolist())
+    v1 = np.asarray(mps_to_vec([np.asarray(a, dtype=complex) for a in psi.A]))
+    require(abs(np.linalg.norm(v1) - 1) <= 1e-11, 'compressed state is not normalized')
+    err2 = np.linalg.norm(nrm * scale * v1 - v0) ** 2
+    require(abs(err2 - nrm ** 2 * (1 - scale ** 2)) <= 1e-11 * nrm ** 2, 'truncation error differs from norm * sqrt(1 - scale^2)')
+    require(np.sqrt(err2) <= nrm * np.sqrt(L * tol) + 1e-11 * nrm, 'truncation error exceeds norm * sqrt(L tol)', err=float(np.sqrt(err2)), bound=float(nrm * np.sqrt(L * tol)))
+    D_new = psi.bond_dims
+    require(all(a <= b for a, b in zip(D_new, D_old)), 'a bond dimension increased')
+    # first truncated bond: count prescribed by the rule on the exact weights (1e-10 window)
+    cut = 1 if mode == 'left' else L - 1
+    keep_hi = int(np.sum(cum > tol - 1e-10)); keep_lo = int(np.sum(cum > tol + 1e-10))
+    require(keep_lo <= D_new[cut] <= keep_hi, 'first truncated bond does not keep the Schmidt values prescribed by the tolerance rule',
+            kept=D_new[cut], expected=[keep_lo, keep_hi], tol=tol, weights=wts.tolist())
+    rec.label('d=%d' % d, 'pairs=%d' % case['npairs'], 'charged' if case['charged'] else 'uncharged', 'mode_' + mode)
+    rec.nontrivial = bool(D_new[cut] < d)
+
+
+@st.composite
+def gen_degenerate(draw, tier):
+    d = draw(st.sampled_from([4, 3, 2]))
+    npairs = draw(st.sampled_from([1, 2, 3] if d <= 3 else [1, 2]))
+    return {'d': d, 'npairs': npairs, 'wsel': draw(st.integers(0, 7)), 'tsel': draw(st.integers(0, 7)), 'seed': draw(st.integers(0, 10**6)),
+            'charged': draw(st.booleans()), 'complex': draw(st.booleans()), 'weight_left': draw(st.booleans()),
+            'mode': draw(st.sampled_from(['left', 'right']))}
+
+
 @st.composite
 def gen_compress(draw, tier):
     if draw(st.booleans()):
@@ -184,6 +270,8 @@ def gen_from_vector(draw, tier):
 
 
 PARTS = [
+    Part('degenerate_multiplets', check_degenerate, strategy=gen_degenerate, n={'quick': 150, 'thorough': 2000}, workers={'quick': 2, 'thorough': 16},
+         doc='pair-product states with exactly repeated Schmidt values, tolerance strictly inside a multiplet'),
     Part('compress', check_compress, strategy=gen_compress, n={'quick': 300, 'thorough': 5000}, workers={'quick': 4, 'thorough': 16}),
     Part('from_vector', check_from_vector_tol, strategy=gen_from_vector, n={'quick': 150, 'thorough': 2500}, workers={'quick': 2, 'thorough': 16}),
 ]
